@@ -141,6 +141,13 @@ def strategy(ctx):
                   st.lists(st.lists(st.tuples(st.text(alphabet="abcXYZ_-.", min_size=1, max_size=4),
                                               st.text(alphabet="abc019-._~!#$%&'()*+/:<=>?@[]^`{|}", max_size=6)), min_size=1, max_size=3),
                            min_size=1, max_size=3), st.integers(0, 3)),
+        st.tuples(st.just("setcookies"), st.just("writeback"),
+                  st.lists(st.tuples(st.text(alphabet="abcXYZ_-.", min_size=1, max_size=4),
+                                     st.text(alphabet="abc019-._~!#$%&'()*+/:<=>?@[]^`{|}", max_size=6),
+                                     st.lists(st.sampled_from([["Path", "/"], ["path", "/a/b"], ["Expires", _DATES[0]], ["expires", _DATES[1]],
+                                                               ["Domain", "example.com"], ["Max-Age", "3600"], ["Secure", None],
+                                                               ["HttpOnly", None], ["SameSite", "Lax"], ["Partitioned", None]]), max_size=4)),
+                           min_size=1, max_size=3), st.integers(0, 1)),
         st.tuples(st.just("multipart"), st.just("writeback"), _boundary,
                   st.lists(st.tuples(st.sampled_from([b"k", b"field1", b"a b", b"\xc3\xa9"]),
                                      st.sampled_from([b"", b"v", b"value1", b"two words", b"\x00\xff", b"x--XXy"])), max_size=3)
@@ -470,6 +477,41 @@ def _setcookies_assign(case, ctx):
     if len(r.headers.get_all("set-cookie")) != len(cookies):
         ctx.fail("setcookies-header-count", "%d cookies assigned, headers %r" % (len(cookies), r.headers.get_all("set-cookie")))
     return cl | ({"pairs"} if cookies else set())
+
+
+def ref_setcookie_decode(value):
+    """RFC 6265 5.2 shape: name=value then ;-separated attributes -> (name, value, [(attr, value|None)])"""
+    parts = value.split(";")
+    k, _, v = parts[0].strip(" \t").partition("=")
+    attrs = []
+    for p in parts[1:]:
+        p = p.strip(" \t")
+        if not p:
+            continue
+        a, eq, av = p.partition("=")
+        attrs.append((a.lower(), av if eq else None))
+    return (k, v, attrs)
+
+
+def _setcookies_writeback(case, ctx):
+    _, _, cookies, style = case
+    sep = ["; ", ";"][style]
+    values = [sep.join(["%s=%s" % (k, v)] + [a if av is None else "%s=%s" % (a, av) for a, av in attrs]) for k, v, attrs in cookies]
+    r = _resp([(b"Set-Cookie", v.encode()) for v in values])
+    meaning0 = [ref_setcookie_decode(v) for v in values]
+    before = list(r.cookies.items(multi=True))
+    snap = [(k, v[0], tuple(tuple(f) for f in v[1].fields)) for k, v in before]
+    if [(k, v, [(a.lower(), av) for a, av in at]) for k, v, at in snap] != meaning0:
+        ctx.cls("setcookies:skipped-reference-reads-differently")   # not claimed by the statement
+        return None
+    r.cookies = before
+    after = [(k, v[0], tuple(tuple(f) for f in v[1].fields)) for k, v in r.cookies.items(multi=True)]
+    if after != snap:
+        ctx.fail("writeback-view-changed:setcookies", "headers %r: view %r -> %r" % (values, snap, after))
+    now = r.headers.get_all("set-cookie")
+    if [ref_setcookie_decode(v) for v in now] != meaning0:
+        ctx.fail("writeback-meaning-changed:setcookies", "headers %r became %r" % (values, now))
+    return {"headers%d" % len(values), "attrs" if any(c[2] for c in cookies) else "noattrs"}
 
 
 # ---- multipart
